@@ -18,6 +18,7 @@ import (
 	"bytes"
 	"encoding/binary"
 	"errors"
+	"fmt"
 	"io"
 )
 
@@ -25,12 +26,18 @@ import (
 // same meaning in the gRPC-Web, gRPC-HTTP2, and Connect protocols.
 const flagEnvelopeCompressed = 0b00000001
 
-var errSpecialEnvelope = errorf(
-	CodeUnknown,
+// errSpecialEnvelope marks the end of a stream. It is never handed to callers
+// as is: they get a fresh *Error wrapping it, so that one call's Meta() does
+// not write into a value every other call shares.
+var errSpecialEnvelope = fmt.Errorf(
 	"final message has protocol-specific flags: %w",
 	// User code checks for end of stream with errors.Is(err, io.EOF).
 	io.EOF,
 )
+
+func newSpecialEnvelopeError() *Error {
+	return NewError(CodeUnknown, errSpecialEnvelope)
+}
 
 // envelope is a block of arbitrary bytes wrapped in gRPC and Connect's framing
 // protocol.
@@ -167,7 +174,7 @@ func (r *envelopeReader) Unmarshal(message any) *Error {
 		if _, err := r.last.Data.ReadFrom(data); err != nil {
 			return errorf(CodeUnknown, "copy final envelope: %w", err)
 		}
-		return errSpecialEnvelope
+		return newSpecialEnvelopeError()
 	}
 
 	if err := r.codec.Unmarshal(data.Bytes(), message); err != nil {
